@@ -3,6 +3,7 @@ description for the Lean run model (driver op `history`)."""
 import json
 import os
 import shutil
+import time
 
 from . import core, proc
 
@@ -48,6 +49,11 @@ EDIT_CLASSES = [
     ("event_file", False, "EventHashData", "file_path"),
     ("channel_serde_rename", False, "ChannelHashData", "serde_rename"),
     ("field_serde_default", False, "FieldHashData", "serde_default"),
+    # the Rust spelling of a parameter / return type whose TypeScript is the same (the dependency visualisation prints the
+    # Rust spelling); the naming rule of a command that only has channels
+    ("param_int_width", False, "ParameterHashData", "rust_type"),
+    ("ret_int_width", False, "CommandHashData", "return_type"),
+    ("chan_cmd_rename_all", False, "CommandHashData", "serde_rename_all"),
     ("cmd_order", False, "CommandHashData", "name"),
     ("param_order", False, "ParameterHashData", "name"),
     ("field_order", False, "FieldHashData", "name"),
@@ -120,6 +126,11 @@ def render_sources(st):
     files = {"src/models.rs": src, "src/commands.rs": cmds, "src/lib.rs": "mod models;\nmod commands;\n"}
     files["src/keys.rs"] = "#[tauri::command]\npub fn import_key(key: %s, label: String) -> bool {\n    true\n}\n" % alt(
         g("array_param_elem"), ["[u8; 4]", "[String; 4]", "[bool; 2]"])
+    files["src/stream.rs"] = (
+        "use tauri::ipc::Channel;\n\n#[tauri::command]\n%spub fn stream_only(app: tauri::AppHandle, on_progress: Channel<i32>, on_done_signal: Channel<bool>) {}\n\n"
+        "#[tauri::command]\npub fn widths(count: %s, names: &str) -> %s {\n    todo!()\n}\n"
+        % (alt(g("chan_cmd_rename_all"), ["", '#[serde(rename_all = "snake_case")]\n', '#[serde(rename_all = "camelCase")]\n', '#[serde(rename_all = "PascalCase")]\n']),
+           alt(g("param_int_width"), ["u32", "u64", "usize"]), alt(g("ret_int_width"), ["Vec<i16>", "Vec<i64>", "Vec<f32>"])))
     if not st.get("_noevents", False):
         # a helper (no command) holding the only emission of one event: the file it lives in is nobody's business
         files["src/%s.rs" % alt(g("event_file"), ["notify", "notices", "nudge"])] = (
@@ -128,6 +139,7 @@ def render_sources(st):
         files["src/bin/helper.rs"] = "#[tauri::command]\npub fn ping(target: String) -> String {\n    target\n}\n"
     if st.get("_nocommands", False):
         files.pop("src/keys.rs")
+        files.pop("src/stream.rs")
         files.pop("src/bin/helper.rs", None)
     return files
 
@@ -214,6 +226,52 @@ class Sandbox:
                 if saved:
                     os.rename(saved, target)
             return undo_full
+        if kind == "rofs":
+            # the output directory sits on a file system that is (re)mounted read-only: every write and removal fails
+            import subprocess
+            os.makedirs(self.out, exist_ok=True)
+            keep = {}
+            for n in os.listdir(self.out):
+                if os.path.isfile(os.path.join(self.out, n)):
+                    with open(os.path.join(self.out, n), "rb") as fh:
+                        keep[n] = fh.read()
+            if subprocess.run(["mount", "-t", "tmpfs", "-o", "size=8m", "tmpfs", self.out], stdout=subprocess.DEVNULL, stderr=subprocess.DEVNULL).returncode == 0:
+                for n, t in keep.items():
+                    with open(os.path.join(self.out, n), "wb") as fh:
+                        fh.write(t)
+                subprocess.run(["mount", "-o", "remount,ro", self.out], stdout=subprocess.DEVNULL, stderr=subprocess.DEVNULL)
+                return lambda: subprocess.run(["umount", "-l", self.out], stdout=subprocess.DEVNULL, stderr=subprocess.DEVNULL)
+            fault = 0                  # no mounting here: the plain unusable-output-path obstacle instead
+        if kind == "busy" and fault >= 1:
+            # the file is the image of a running program: opening it for writing fails for as long as the program runs
+            import subprocess
+            target = os.path.join(self.out, names[fault - 1])
+            os.makedirs(self.out, exist_ok=True)
+            saved = None
+            if os.path.lexists(target):
+                saved = target + ".saved"
+                os.rename(target, saved)
+            shutil.copy("/bin/sleep", target)
+            os.chmod(target, 0o755)
+            child = subprocess.Popen([target, "60"], stdout=subprocess.DEVNULL, stderr=subprocess.DEVNULL)
+            busy = False
+            for _ in range(40):
+                try:
+                    open(target, "ab").close()
+                    time.sleep(0.02)
+                except OSError:
+                    busy = True
+                    break
+
+            def undo_busy():
+                child.kill()
+                child.wait()
+                os.remove(target)
+                if saved:
+                    os.rename(saved, target)
+            if busy:
+                return undo_busy
+            undo_busy()             # cannot be produced here: the plain obstacle instead
         if fault == 0:
             # the output path is unusable: a regular file where the directory should be
             if os.path.isdir(self.out):
@@ -345,6 +403,9 @@ class Sandbox:
             os.remove(p)
 
     def close(self):
+        if os.path.ismount(self.out):
+            import subprocess
+            subprocess.run(["umount", "-l", self.out], stdout=subprocess.DEVNULL, stderr=subprocess.DEVNULL)
         proc.cleanup(self.root)
 
 
@@ -387,6 +448,9 @@ def request(cid, steps, obs, hashed, tables, build=False):
             # ... and an edit of a type that only an event payload reaches changes no output while no event is emitted
             if st["aspect"] in ("event_only_field", "event_nested_field", "event_name", "event_payload") and state.get("_noevents", False):
                 continue
+        if st["k"] == "run" and st.get("kind") == "rofs":
+            # a read-only file system is, to the model, the fault before the first operation: nothing can change
+            s2["fault"] = 0
         abstract.append(s2)
     return {"id": cid, "op": "history",
             "h": core.hashlib.sha1(json.dumps([steps, build], sort_keys=True).encode()).hexdigest()[:16],
